@@ -4,6 +4,7 @@ import (
 	"sync"
 
 	"github.com/buildbuildio/pebbles/gqlerrors"
+	"github.com/buildbuildio/pebbles/verifhook"
 	"github.com/samber/lo"
 	"github.com/vektah/gqlparser/v2/ast"
 )
@@ -45,32 +46,41 @@ func AsyncMapReduce[T, P, A any](
 		go func(v T) {
 			mapRes, err := mapFunc(v)
 			if err != nil {
+				verifhook.At("amr.worker.sendErr")
 				errChan <- err
 				return
 			}
+			verifhook.At("amr.worker.sendRes")
 			resChan <- mapRes
 		}(value)
 	}
 
 	go func() {
 		for {
+			verifhook.At("amr.reducer.loop")
 			select {
 			case res := <-resChan:
 				acc = reduceFunc(acc, res)
+				verifhook.At("amr.reducer.afterReduce")
 				wg.Done()
 			case err := <-errChan:
 				errs = gqlerrors.ExtendErrorList(errs, err)
+				verifhook.At("amr.reducer.afterErr")
 				wg.Done()
 			case <-doneChan:
+				verifhook.At("amr.reducer.done")
 				return
 			}
 		}
 	}()
 
+	verifhook.At("amr.caller.beforeWait")
 	wg.Wait()
 
+	verifhook.At("amr.caller.beforeDone")
 	doneChan <- struct{}{}
 
+	verifhook.At("amr.caller.beforeReturn")
 	if len(errs) > 0 {
 		return acc, errs
 	}
